@@ -23,7 +23,7 @@ func register(sc *explore.Scenario) *explore.Scenario {
 
 // plan of one property check: scenarios with their bound per tier
 type planItem struct {
-	Sc             *explore.Scenario
+	Sc              *explore.Scenario
 	Quick, Thorough int // deviation bounds (-1 = skip in that tier)
 }
 
